@@ -199,6 +199,24 @@ def g_namespace_isolation(R, tier):
                 R.check(f"{nm}/owns-a-fresh-empty-{attr}", ok,
                         f"{attr}: {'shared between namespace objects' if la is lb else ''} {'class/module-level object ' + pre.get(id(la), '') if id(la) in pre else ''}",
                         replay=dict(kind="src", src="log = []\nfor i in range(3):\n    def f():\n        for j in range(2):\n            if j:\n                return j\n        return 0\n    log.append(f())\nelse:\n    log.append('else')\n", expect="same-globals"))
+            # every mutable container reachable as an attribute -- instance attributes AND
+            # class-level fallbacks (annotated or assigned on the class or a base) -- belongs
+            # to this object alone: created by its constructor, not shared with the class, a
+            # module or the sibling object
+            names = set(vars(a)) | set(vars(b))
+            for k_ in type(a).__mro__:
+                if (getattr(k_, "__module__", "") or "").startswith("oneliner"):
+                    names |= set(getattr(k_, "__annotations__", {})) | {n_ for n_, v_ in vars(k_).items() if not callable(v_) and not n_.startswith("__")}
+            shared = []
+            for n_ in sorted(names):
+                va, vb = getattr(a, n_, None), getattr(b, n_, None)
+                if isinstance(va, (list, dict, set)) and not isinstance(va, type):
+                    if va is vb:
+                        shared.append(f"{n_}: one object for both namespaces")
+                    elif id(va) in pre:
+                        shared.append(f"{n_}: {pre[id(va)]}")
+            R.check(f"{nm}/every-mutable-container-attribute-is-owned-by-the-instance", not shared, "; ".join(shared),
+                    replay=dict(kind="history"))
 
 
 def g_method_super(R, tier):
